@@ -20,6 +20,7 @@ import warnings
 from unittest import mock
 
 import numpy as np
+from scipy.sparse import identity as sp_identity
 
 from .core import clist, cnat, cz
 
@@ -333,7 +334,7 @@ class CorrBatch:
                 rel = f'chk/cases_{name}_{k // per_file}.v'
                 ctx.write(rel, txt)
                 files.append((name, rel, k, len(chunk)))
-        res = ctx.coqc_many([f for _, f, _, _ in files], timeout)
+        res = ctx.coqc_many([f for _, f, _, _ in files], timeout, jobs=4)
         for name, imports, fname, eqb, cases, nontrivial, defs, per_file in self.jobs:
             bad, broke = [], False
             for nm, rel, k, n in files:
@@ -590,7 +591,7 @@ def witness_closure(ctx, name):
 
 # ============================================================================ operand monitor
 
-def reach(obj, path, out, seen, depth=0):
+def reach(obj, path, out, seen, depth=0, dicts=None):
     """every ndarray reachable from obj (by identity), with a path name"""
     import scipy.sparse as sp
     if obj is None or depth > 7 or id(obj) in seen:
@@ -604,30 +605,32 @@ def reach(obj, path, out, seen, depth=0):
         if isinstance(ori, np.ndarray):
             out.append((path + '.ori', ori))
         if obj.base is not None and isinstance(obj.base, np.ndarray):
-            reach(obj.base, path + '.base', out, seen, depth + 1)
+            reach(obj.base, path + '.base', out, seen, depth + 1, dicts)
         return
     if sp.issparse(obj):
         for a in ('data', 'indices', 'indptr', 'row', 'col'):
             if hasattr(obj, a):
-                reach(getattr(obj, a), f'{path}.{a}', out, seen, depth + 1)
+                reach(getattr(obj, a), f'{path}.{a}', out, seen, depth + 1, dicts)
         return
     if isinstance(obj, dict):
+        if dicts is not None and obj and all(isinstance(k, str) for k in obj):
+            dicts.append((path, obj))          # tag dictionaries / keyword dictionaries: their key sets are operand state too
         for k, v in obj.items():
-            reach(v, f'{path}[{k!r}]', out, seen, depth + 1)
+            reach(v, f'{path}[{k!r}]', out, seen, depth + 1, dicts)
         return
     if isinstance(obj, (list, tuple)):
         for k, v in enumerate(obj):
-            reach(v, f'{path}[{k}]', out, seen, depth + 1)
+            reach(v, f'{path}[{k}]', out, seen, depth + 1, dicts)
         return
     mod = type(obj).__module__ or ''
     if mod.startswith('skfem') and hasattr(obj, '__dict__'):
         for k, v in vars(obj).items():
-            reach(v, f'{path}.{k}', out, seen, depth + 1)
+            reach(v, f'{path}.{k}', out, seen, depth + 1, dicts)
         return
     if callable(obj) and getattr(obj, '__closure__', None):
         for k, c in enumerate(obj.__closure__):
             try:
-                reach(c.cell_contents, f'{path}.<closure {k}>', out, seen, depth + 1)
+                reach(c.cell_contents, f'{path}.<closure {k}>', out, seen, depth + 1, dicts)
             except ValueError:
                 pass
 
@@ -637,19 +640,42 @@ def _digest(a):
         + str(a.shape) + a.dtype.str
 
 
+def _dict_state(d):
+    """names and per-name content of a tag / keyword dictionary: sorted keys, identity of each mapped object, checksum of arrays
+    (with the orientation of an OrientedBoundary)"""
+    out = []
+    for k in sorted(d):
+        v = d[k]
+        if isinstance(v, np.ndarray):
+            ori = getattr(v, 'ori', None)
+            out.append((k, id(v), _digest(np.asarray(v)), None if ori is None else _digest(np.asarray(ori))))
+        else:
+            out.append((k, id(v), None, None))
+    return tuple(out)
+
+
 class Monitor:
     def __init__(self):
         self.items = []
+        self.dicts = []
 
     def watch(self, obj, label):
-        out = []
-        reach(obj, label, out, set())
+        out, dicts = [], []
+        reach(obj, label, out, set(), 0, dicts)
         for path, a in out:
             self.items.append((path, a, _digest(a)))
+        for path, d in dicts:
+            self.dicts.append((path, d, _dict_state(d)))
         return obj
 
     def changed(self):
-        return [path for path, a, d in self.items if _digest(a) != d]
+        ch = [path for path, a, d in self.items if _digest(a) != d]
+        for path, d, st in self.dicts:
+            now = _dict_state(d)
+            if now != st:
+                old_keys, new_keys = [x[0] for x in st], [x[0] for x in now]
+                ch.append(f'{path}: names {old_keys} -> {new_keys}' if old_keys != new_keys else f'{path}: entries re-bound or changed')
+        return ch
 
 
 # ============================================================================ the object pool and its operations
@@ -665,6 +691,11 @@ MESH_SPECS = {
     'line_b': {'cls': 'MeshLine', 'ctor': None, 'args': [[0., 2., 3., 4.]]},
     'tri2': {'cls': 'MeshTri2', 'ctor': 'init_circle', 'args': [1]},
     'hex': {'cls': 'MeshHex', 'ctor': 'init_tensor', 'args': [[0., 1., 2.], [0., 2.], [0., 1.]]},
+    # quadratic classes, built from the linear meshes above (isoparametric mapping of degree 2)
+    'quad2': {'cls': 'MeshQuad2', 'ctor': 'from_mesh', 'base': 'quad'},
+    'tet2': {'cls': 'MeshTet2', 'ctor': 'from_mesh', 'base': 'tet'},
+    'hex2': {'cls': 'MeshHex2', 'ctor': 'from_mesh', 'base': 'hex'},
+    'tri2_b': {'cls': 'MeshTri2', 'ctor': 'from_mesh', 'base': 'tri_b'},
 }
 ELEM_SPECS = {
     'tri': ['ElementTriP1', 'ElementTriP2', 'ElementTriMorley', 'ElementTriArgyris', 'ElementVector:ElementTriP1', 'ElementTriRT1'],
@@ -673,9 +704,12 @@ ELEM_SPECS = {
     'line': ['ElementLineP1', 'ElementLinePp:3', 'ElementLinePp:2', 'ElementLineHermite'],
     'tri2': ['ElementTriP2', 'ElementTriP1'],
     'hex': ['ElementHex1'],
+    'quad2': ['ElementQuad2', 'ElementQuad1'],
+    'tet2': ['ElementTetP2', 'ElementTetP1'],
+    'hex2': ['ElementHex2', 'ElementHex1'],
 }
 FAMILY = {'tri': 'tri', 'tri_b': 'tri', 'tri_c': 'tri', 'quad': 'quad', 'quad_b': 'quad', 'tet': 'tet', 'line': 'line',
-          'line_b': 'line', 'tri2': 'tri2', 'hex': 'hex'}
+          'line_b': 'line', 'tri2': 'tri2', 'hex': 'hex', 'quad2': 'quad2', 'tet2': 'tet2', 'hex2': 'hex2', 'tri2_b': 'tri2'}
 SOLVER_SPECS = {
     'krylov': ('solver_iter_krylov', {}),
     'direct': ('solver_direct_scipy', {}),
@@ -695,7 +729,10 @@ class Pool:
         if ('m', name) not in self.objs:
             s = MESH_SPECS[name]
             cls = getattr(skfem, s['cls'])
-            if s['ctor'] is None:
+            if s['ctor'] == 'from_mesh':
+                b = MESH_SPECS[s['base']]
+                m = cls.from_mesh(getattr(getattr(skfem, b['cls']), b['ctor'])(*[np.array(a) for a in b['args']]))
+            elif s['ctor'] is None:
                 m = cls(np.array(s['args'][0]))
             elif s['ctor'] == 'init_circle':
                 m = cls.init_circle(*s['args'])
@@ -703,6 +740,15 @@ class Pool:
                 m = getattr(cls, s['ctor'])(*[np.array(a) for a in s['args']])
             self.objs[('m', name)] = m
         return self.objs[('m', name)]
+
+    def tagged(self, name):
+        """a long-lived mesh that already carries named boundaries and subdomains"""
+        if ('mt', name) not in self.objs:
+            m = self.mesh(name)
+            lo, mid = float(m.p[0].min()), float(m.p[0].mean())
+            self.objs[('mt', name)] = m.with_boundaries({'low': lambda x: x[0] == lo, 'gamma': lambda x: x[0] < mid}) \
+                .with_subdomains({'a': lambda x: x[0] < mid})
+        return self.objs[('mt', name)]
 
     def elem(self, name):
         """ONE element object per name, shared by all meshes of the pool"""
@@ -834,7 +880,7 @@ TOL = 1e-13
 
 def _ref_points(fam, which):
     """small reference point arrays per family; several of equal size and different content"""
-    dim = {'tri': 2, 'quad': 2, 'tet': 3, 'line': 1, 'tri2': 2, 'hex': 3}[fam]
+    dim = {'tri': 2, 'quad': 2, 'tet': 3, 'line': 1, 'tri2': 2, 'hex': 3, 'quad2': 2, 'tet2': 3, 'hex2': 3}[fam]
     base = [[0.125, 0.25], [0.25, 0.125], [0.5], [0.25], [0.125, 0.25, 0.5], [0.25, 0.5, 0.125]][which % 6]
     return np.array([[(c * (1 + r)) % 1.0 * (0.9 / dim) + 0.03125 for c in base] for r in range(dim)])
 
@@ -933,6 +979,24 @@ def do_op(pool, d, mon):
         i = d['i'] % len(e.doflocs)
         r = e.lbasis(X, i)
         return canon([np.array(a) for a in r])
+    if k == 'retag':
+        # tagging a mesh that ALREADY carries tags: same names (redefinition in the NEW mesh only) and new names
+        mt = mon.watch(pool.tagged(d['mesh']), 'tagged_mesh')
+        hi = float(mt.p[0].max())
+        if d['how'] == 'boundaries-same':
+            r = mt.with_boundaries({'gamma': lambda x: x[0] > -1e9})
+        elif d['how'] == 'boundaries-new':
+            r = mt.with_boundaries({'high': lambda x: x[0] == hi})
+        elif d['how'] == 'subdomains-same':
+            r = mt.with_subdomains({'a': lambda x: x[0] > -1e9})
+        elif d['how'] == 'subdomains-new':
+            r = mt.with_subdomains({'b': lambda x: x[0] > -1e9})
+        elif d['how'] == 'refined':
+            r = mt.refined() if d['mesh'] not in ('tet', 'hex') else mt.scaled(2.0)
+        else:
+            raise KeyError(d['how'])
+        # the operand itself is part of the result: it must still be what a freshly tagged mesh is
+        return canon([r, mt, {nm: int(len(v)) for nm, v in (mt.boundaries or {}).items()}])
     if k == 'transform':
         m = mon.watch(pool.mesh(d['mesh']), 'mesh')
         how = d['how']
@@ -969,6 +1033,58 @@ def do_op(pool, d, mon):
         else:
             raise KeyError(how)
         return canon(r)
+    if k == 'io':
+        import json
+        import os
+        import tempfile
+        m = mon.watch(pool.mesh(d['mesh']), 'mesh')
+        how = d['how']
+        mt = m.with_boundaries({'low': lambda x: x[0] == m.p[0].min()}).with_subdomains({'a': lambda x: x[0] < m.p[0].mean()})
+        mon.watch(mt, 'tagged_mesh')
+        cls = type(mt)
+        if how == 'dict':
+            r = cls.from_dict(mt.to_dict())
+        elif how == 'json':
+            r = cls.from_dict(json.loads(json.dumps(mt.to_dict())))
+        else:
+            with tempfile.TemporaryDirectory(prefix='grpI_c15_') as td:
+                if how == 'npz':
+                    fn = os.path.join(td, 'm.npz')
+                    mt.save_npz(fn)
+                    r = cls.load_npz(fn)
+                else:
+                    fn = os.path.join(td, 'm.' + how)
+                    mt.save(fn)
+                    r = cls.load(fn)
+        return canon([r, mt])
+    if k == 'composite':
+        from skfem.assembly.basis.composite_basis import CompositeBasis
+        from skfem.helpers import grad, dot
+        key = ('cb', d['mesh'], d['elem'], d['elem2'])
+        if key not in pool.objs:
+            b1 = pool.basis(d['mesh'], d['elem'])
+            b2 = skfem.Basis(pool.mesh(d['mesh']), pool.elem(d['elem2']), quadrature=(b1.X, b1.W))
+            pool.objs[key] = CompositeBasis(b1, b2)
+        cb = mon.watch(pool.objs[key], 'composite_basis')
+
+        @skfem.BilinearForm
+        def a(u, p, v, q, w):
+            return dot(grad(u), grad(v)) + p * q * (1.0 + w.x[0]) + u * q + p * v
+        A = a.assemble(cb)
+        y = np.cos(np.arange(cb.N) * 0.2)
+        parts = cb.split(y)
+        return canon([A, cb.element_dofs, [np.asarray(pp[0]) for pp in parts]])
+    if k == 'mpc':
+        A, b, D, x = pool.system(d['mesh'], d['elem'])
+        mon.watch(A, 'A'); mon.watch(b, 'b')
+        n = A.shape[0]
+        M = mon.watch(np.array([0, 1]), 'M')
+        S = mon.watch(np.array([n - 1, n - 2]), 'S')
+        T = mon.watch((0.5 * sp_identity(2)).tocsr(), 'T')
+        g = mon.watch(np.array([0.25, -0.5]), 'g')
+        out = U.mpc(A, b, S=S, M=M, T=T, g=g)
+        sol = U.solve(*out)
+        return canon([list(out[:2]), sol])
     if k == 'bc':
         A, b, D, x = pool.system(d['mesh'], d['elem'])
         mon.watch(A, 'A'); mon.watch(b, 'b'); mon.watch(D, 'D'); mon.watch(x, 'x')
@@ -997,13 +1113,13 @@ def do_op(pool, d, mon):
 
 GLOBAL_ELEMS = ('ElementTriMorley', 'ElementTriArgyris', 'ElementLineHermite')
 SCALAR_H1 = ('ElementTriP1', 'ElementTriP2', 'ElementQuad1', 'ElementQuad2', 'ElementTetP1', 'ElementTetP2', 'ElementLineP1',
-             'ElementLinePp:3', 'ElementLinePp:2', 'ElementHex1', 'ElementQuadP:2', 'ElementQuadP:3')
+             'ElementLinePp:3', 'ElementLinePp:2', 'ElementHex1', 'ElementHex2', 'ElementQuadP:2', 'ElementQuadP:3')
 
 
 def random_subpool(rng):
     """a small set of objects to be shared by one history: one cell family, two meshes of it (same sizes, other
     geometry where available), two elements, so that objects ARE reused within <= 12 operations"""
-    fam = rng.choice(['tri', 'tri', 'quad', 'quad', 'line', 'line', 'tet', 'tri2', 'hex'])
+    fam = rng.choice(['tri', 'tri', 'quad', 'quad', 'line', 'line', 'tet', 'tri2', 'hex', 'quad2', 'tet2', 'hex2'])
     ms = [m for m, f in FAMILY.items() if f == fam]
     meshes = rng.sample(ms, min(2, len(ms)))
     elems = rng.sample(ELEM_SPECS[fam], min(2, len(ELEM_SPECS[fam])))
@@ -1017,12 +1133,16 @@ def random_op(rng, sub=None):
     kinds = ['conn', 'asm', 'asm', 'interp', 'map', 'map', 'gbasis', 'gbasis', 'linear']
     if not glob and fam not in ('tri2',):
         kinds += ['asm_facet']
-    if fam != 'tri2' and not glob and ename != 'ElementTriRT1':
+    if fam not in ('tri2', 'quad2', 'tet2', 'hex2') and not glob and ename != 'ElementTriRT1':
         kinds += ['probes', 'interpolator', 'interpolator', 'point_source', 'point_source']
     if not glob and not ename.startswith('ElementVector'):
         kinds += ['lbasis', 'lbasis']
-    if fam != 'tri2':
-        kinds += ['transform', 'transform']
+    if fam not in ('tri2', 'quad2', 'tet2', 'hex2'):
+        kinds += ['transform', 'transform', 'io', 'retag', 'retag']
+    if ename in SCALAR_H1 and len([e for e in elems if e in SCALAR_H1]) >= 2:
+        kinds += ['composite']
+    if ename in SCALAR_H1:
+        kinds += ['mpc']
     if ename in SCALAR_H1:
         kinds += ['bc', 'solve', 'solve', 'solve']
     k = rng.choice(kinds)
@@ -1048,6 +1168,17 @@ def random_op(rng, sub=None):
         if fam in ('tri', 'tet', 'line'):
             hows += ['adaptive', 'smoothed'] if fam != 'line' else ['adaptive']
         return {'op': 'transform', 'mesh': mname, 'how': rng.choice(hows)}
+    if k == 'retag':
+        return {'op': 'retag', 'mesh': mname,
+                'how': rng.choice(['boundaries-same', 'boundaries-new', 'subdomains-same', 'subdomains-new', 'refined'])}
+    if k == 'io':
+        hows = ['dict', 'json', 'npz', 'msh', 'vtk'] if fam != 'line' else ['dict', 'json', 'npz']
+        return {'op': 'io', 'mesh': mname, 'how': rng.choice(hows)}
+    if k == 'composite':
+        e2 = rng.choice([e for e in elems if e in SCALAR_H1 and e != ename] or [ename])
+        return {'op': 'composite', 'mesh': mname, 'elem': ename, 'elem2': e2}
+    if k == 'mpc':
+        return {'op': 'mpc', 'mesh': mname, 'elem': ename}
     if k == 'bc':
         return {'op': 'bc', 'mesh': mname, 'elem': ename, 'how': rng.choice(['condense', 'enforce', 'penalize'])}
     sname = rng.choice([None, 'krylov', 'krylov', 'direct', 'cg', 'cg', 'eigsym', 'eigsym'])
@@ -1064,9 +1195,18 @@ def random_op(rng, sub=None):
 
 
 def _rng_state():
-    """the caller's global NumPy random stream (hidden global state an operation must not touch)"""
+    """global state an operation must not touch: the caller's NumPy random stream, NumPy's floating-point error handling and
+    print options, the levels / handlers of the root and 'skfem' loggers (the warnings filter list is not monitored: third-party
+    modules append to it on first use)"""
+    import logging
     st = np.random.get_state()
-    return (st[0], st[1].tobytes(), st[2], st[3], st[4])
+    lg = [(n, logging.getLogger(n).level, len(logging.getLogger(n).handlers), logging.getLogger(n).disabled) for n in ('', 'skfem')]
+    return ((st[0], st[1].tobytes(), st[2], st[3], st[4]), tuple(sorted(np.geterr().items())),
+            repr(sorted(np.get_printoptions().items())), tuple(lg))
+
+
+GLOBAL_NAMES = ['<global numpy random state>', '<numpy error handling (np.seterr)>', '<numpy print options>',
+                '<logging levels / handlers>']
 
 
 def run_history(ops, collect=None):
@@ -1083,8 +1223,9 @@ def run_history(ops, collect=None):
         except Exception as e:          # noqa: BLE001 - an exception after a history is compared with the fresh behaviour
             got, gexc = None, f'{type(e).__name__}: {e}'
         ch = mon.changed()
-        if _rng_state() != rs0:
-            ch = ['<global numpy random state>'] + ch
+        rs1 = _rng_state()
+        if rs1 != rs0:
+            ch = [GLOBAL_NAMES[i] for i in range(len(rs0)) if rs0[i] != rs1[i]] + ch
         if ch:
             problems.append((k, 'mutated', ch[:6]))
         fmon = Monitor()
@@ -1133,7 +1274,7 @@ def classify(ops, kind):
     if kind == 'mutated':
         return f'operand-mutated:{last["op"]}:{last.get("how", last.get("solver", ""))}'
     if kind == 'rng':
-        return f'global-state:numpy-random-stream-changed:{last["op"]}:{last.get("how", "")}:{type_of_mesh(last)}'
+        return f'global-state:changed:{last["op"]}:{last.get("how", "")}:{type_of_mesh(last)}'
     if last['op'] == 'solve' and last.get('solver'):
         fac = SOLVER_SPECS[last['solver']][0]
         return f'closure:{fac}:kwargs-leak-between-calls'
@@ -1281,7 +1422,7 @@ def _refute_in_coq(ctx, name, imports, stmt, proof, pending):
 
 
 def _run_refutations(ctx, pending):
-    res = ctx.coqc_many([rel for _, rel in pending], 120) if pending else {}
+    res = ctx.coqc_many([rel for _, rel in pending], 120, jobs=4) if pending else {}
     for name, rel in pending:
         okc, out, err, secs = res[rel]
         ctx.obligations.append({'name': f'{rel}:{name}_refuted', 'kind': 'refutation-witness', 'ok': okc})
@@ -1325,6 +1466,17 @@ def search(ctx):
                      f'{name}: keyword arguments of an earlier call reach the backend of a later call', dict(w, site='closure'))
     # ---------------- constructors: caller-owned arrays and long-lived source meshes
     search_constructors(ctx)
+    # ---------------- tagging meshes that already carry tags (every family, same and new names): operand and its tag
+    # dictionaries unchanged, result equal to a fresh pool's
+    for mname in ('tri', 'quad', 'tet', 'hex', 'line', 'tri2'):
+        for how in ('boundaries-same', 'boundaries-new', 'subdomains-same', 'subdomains-new', 'refined'):
+            ops = [{'op': 'retag', 'mesh': mname, 'how': how}, {'op': 'retag', 'mesh': mname, 'how': 'refined'}]
+            problems, _ = run_history(ops)
+            ctx.count(('retag', mname, how), nontrivial=True)
+            for k, kind, detail in problems:
+                key = classify(ops[:k + 1], kind)
+                ctx.fail(key, f'tagging an already tagged {MESH_SPECS[mname]["cls"]} again ({ops[k]["how"]}): {kind}: {detail}',
+                         {'site': 'history', 'ops': ops[:k + 1], 'changed': detail if kind == 'mutated' else None, 'kind': kind})
     # ---------------- (b)+(c) random histories over a shared pool
     nhist = ctx.n(70, 700)
     worst, nops, nprob = 0.0, 0, 0
@@ -1355,11 +1507,11 @@ def search(ctx):
             if mutated_at is not None and kind != 'mutated' and k >= mutated_at:
                 continue          # a consequence of the operand mutation reported for this history
             if kind == 'mutated':
-                only_rng = detail == ['<global numpy random state>']
+                only_rng = bool(detail) and all(x in GLOBAL_NAMES for x in detail)
                 key = classify(ops[:k + 1], 'rng' if only_rng else kind)
                 if key not in seen_keys:
                     seen_keys.add(key)
-                    what = (f'operation {ops[k]} changed the global NumPy random state (the caller\'s random stream)' if only_rng
+                    what = (f'operation {ops[k]} changed global state of the process: {detail}' if only_rng
                             else f'operation {ops[k]} changed arrays of its operands: {detail}')
                     ctx.fail(key, what, {'site': 'history', 'ops': [ops[k]] if only_rng else ops[:k + 1], 'changed': detail})
                 continue
